@@ -181,6 +181,11 @@ def spec_builtin(I, st, name, args, kwargs, node):
         m, k, v = args
         base = m.ty
         return Val(base, (z3.Store(m.term[0], k.term, True), z3.Store(m.term[1], k.term, I.coerce(st, v, base[2]).term)))
+    if name == "mkval":
+        nm = node.args[0].value
+        dt, fields = REG.vals[nm]
+        terms = [I.coerce(st, v, fty).term for v, (f, fty) in zip(args[1:], fields)]
+        return Val(("Val", nm), dt.constructor(0)(*terms))
     if name == "unchanged_except":
         # unchanged_except(obj, "field1", "field2"): every declared field of obj except the named ones is unchanged
         o = args[0]
